@@ -37,6 +37,8 @@ def run(ck):
     ck.rule("C13.R12", "the set of configured span lifecycle points is what the user's expression denotes: FmtSpan's operators compute the operator they are named after", floor=6)
     ck.rule("C13.R13", "a span's formatted fields accumulate: handing out the writer over them and recording further values never discards what is already there", floor=3)
     ck.rule("C13.R14", "a writer expression denotes what its spelling says: each MakeWriterExt adaptor builds its own combinator from (self, argument) in place, the provided make_writer_for is make_writer, and the sum / guard writers forward every io::Write method to the writer they hold", floor=20)
+    ck.rule("C13.R17", "an event that arrives while the thread's locals are being torn down is still written: on_event reaches its per-thread buffer with try_with and "
+            "formats into a fresh buffer when it is gone (as it does when the buffer is busy)", floor=1)
     ck.rule("C13.R16", "the formatted fields a span's lines show are the ones stored for it: the per-span type map files and finds a value under its own type's id (as C14.R12)", floor=9)
     ck.rule("C13.R15", "a clock that cannot tell the time costs the timestamp, not the record: format_timestamp never returns the timer's error", floor=2)
     ck.rule("C13.R10", "every field a formatter's visitor is handed ends up in the record: no record_* path drops a field (except after an earlier write error)", floor=4)
@@ -61,6 +63,7 @@ def run(ck):
     r13(ck, F)
     r14(ck, F)
     r15(ck, F)
+    r17(ck, F)
     from rules import C14 as _C14
     _C14.extensions_typemap(ck, F, "C13.R16")
     from rules import C02
@@ -605,6 +608,29 @@ def r14(ck, F):
                 ck.bad("C13.R14", key, where(b.raw["sp"]), "; ".join(sorted(set(problems))), fn=b.path)
             else:
                 ck.ok("C13.R14", key, fn=b.path)
+
+
+def r17(ck, F):
+    b = F.body(FS + "on_event")
+    if not ck.anchor("C13.R17", "fmt::Subscriber::on_event", b):
+        return
+    key = "on_event's thread-local buffer access cannot panic"
+    hard = [(bb, t) for bb, t in b.calls() if str(t["callee"].get("path", "")).endswith("LocalKey::<T>::with")]
+    soft = [(bb, t) for bb, t in b.calls() if str(t["callee"].get("path", "")).endswith("LocalKey::<T>::try_with")]
+    if hard:
+        ck.bad("C13.R17", key, where(hard[0][1]["sp"]), "LocalKey::with panics once the thread-local has been destroyed: an event emitted from another thread-local's destructor "
+               "(or a span closed there, with close records on) is dispatched normally, reaches on_event after its buffer is gone, and the panic inside a TLS destructor "
+               "aborts the process -- the record is never written", fn=b.path)
+    elif soft:
+        # ... and the formatting work is also done on the failure path: the closure is called outside try_with as well
+        fallback = [bb for bb, t in b.calls() if bb not in [x[0] for x in soft] and "{closure" in str(t["callee"].get("path", "")) + str(t["callee"].get("full", ""))] or \
+            [bb for bb, t in b.calls() if t["callee"].get("method") in ("call", "call_once", "call_mut")]
+        if fallback or len(soft) >= 1 and len(F.closures_of(b)) >= 2:
+            ck.ok("C13.R17", key, fn=b.path)
+        else:
+            ck.bad("C13.R17", key, where(b.raw["sp"]), "try_with's failure is not followed by formatting into a fresh buffer: the record is silently lost", fn=b.path)
+    else:
+        ck.ok("C13.R17", key, fn=b.path, detail="no thread-local buffer")
 
 
 def r15(ck, F):
